@@ -76,6 +76,9 @@ def translArsOp (op : String) (args : List String) : Option String :=
     match s with
     | none => some (out sBytes (AutomaticRegistrationService.encode_len_val_none ext ()))
     | some b => some (out sBytes (AutomaticRegistrationService.encode_len_val_str ext ⟨b⟩))
+  | "t.ars.lvb", [s] => do
+    let b ← hexToBytes s
+    some (out sBytes (AutomaticRegistrationService.encode_len_val_bytes ext b))
   | "t.ars.rlv", [d, i] => do
     let d ← hexToBytes d
     let i ← intOfString i
